@@ -426,3 +426,9 @@ func (x *Explorer) emit(end EndKind, results []*Term, ret *ssa.Return) {
 	p := &Path{X: x, Events: x.events, Lits: x.lits, End: end, Results: results, Ret: ret, Blocks: x.blocks}
 	x.cb(p)
 }
+
+// Prefix returns the events of the path explored so far (valid during Stop callbacks).
+func (x *Explorer) Prefix() []Event { return x.events }
+
+// PrefixLits returns the literals of the path explored so far.
+func (x *Explorer) PrefixLits() []Lit { return x.lits }
